@@ -38,6 +38,7 @@ OH(n, b) == INSTANCE OooHmac WITH L <- n, MAXLEN <- 65535, BLK <- b,
                                   PADMIN <- IF b = 128 THEN 17 ELSE 9, Track <- FALSE
 OP(n) == INSTANCE OooPhased WITH L <- n, MAXLEN <- 65535
 OM(n, b) == INSTANCE OooShaMb WITH L <- n, BLK <- b, PAD <- IF b = 128 THEN 16 ELSE 8, BIG <- 2000000000
+OQ(n) == INSTANCE OooInitQ WITH L <- n
 NOJ == 0
 
 \* phase lengths of a job in a "phased" unit (U[un].pf names the rule); len in bytes
@@ -52,17 +53,19 @@ PhasesOf(pf, len, aad) ==
       [] pf = "xcbc" -> (IF len <= 16 THEN <<0, 16>> ELSE <<(CeilDiv(len, 16) - 1) * 16, 16>>)
       [] OTHER -> <<len>>
 
-UEmpty(un) == IF U[un].fam = "hmac" THEN OH(U[un].L, U[un].blk)!EmptyLanes
+UEmpty(un) == IF U[un].fam = "initq" THEN OQ(U[un].L)!EmptyLanes ELSE IF U[un].fam = "hmac" THEN OH(U[un].L, U[un].blk)!EmptyLanes
               ELSE IF U[un].fam = "phased" THEN OP(U[un].L)!EmptyLanes
               ELSE IF U[un].fam = "shamb" THEN OM(U[un].L, U[un].blk)!EmptyLanes ELSE OS(U[un].L, U[un].blk, U[un].pf = "tienew")!EmptyLanes
 USubmit(un, st, j, len, aad) ==
-    IF U[un].fam = "phased" THEN LET r == OP(U[un].L)!OSubmit(st, j, PhasesOf(U[un].pf, len, aad)) IN [st |-> r.st, ret |-> r.ret]
+    IF U[un].fam = "initq" THEN OQ(U[un].L)!OSubmit(st, j)
+    ELSE IF U[un].fam = "phased" THEN LET r == OP(U[un].L)!OSubmit(st, j, PhasesOf(U[un].pf, len, aad)) IN [st |-> r.st, ret |-> r.ret]
     ELSE IF U[un].fam = "shamb" THEN LET r == OM(U[un].L, U[un].blk)!OSubmit(st, j, len) IN [st |-> r.st, ret |-> r.ret]
     ELSE IF U[un].fam = "hmac" THEN LET r == OH(U[un].L, U[un].blk)!OSubmit(st, j, len) IN [st |-> r.st, ret |-> r.ret]
     ELSE IF U[un].fl > 1 /\ len < U[un].fl /\ U[un].ss THEN [st |-> st, ret |-> j]      \* shorter than one block: never enters a lane
     ELSE LET r == OS(U[un].L, U[un].blk, U[un].pf = "tienew")!OSubmit(st, j, (len \div U[un].fl) * U[un].fl) IN [st |-> r.st, ret |-> r.ret]
 UFlush(un, st) ==
-    IF U[un].fam = "phased" THEN LET r == OP(U[un].L)!OFlush(st) IN [st |-> r.st, ret |-> r.ret]
+    IF U[un].fam = "initq" THEN OQ(U[un].L)!OFlush(st)
+    ELSE IF U[un].fam = "phased" THEN LET r == OP(U[un].L)!OFlush(st) IN [st |-> r.st, ret |-> r.ret]
     ELSE IF U[un].fam = "shamb" THEN LET r == OM(U[un].L, U[un].blk)!OFlush(st) IN [st |-> r.st, ret |-> r.ret]
     ELSE IF U[un].fam = "hmac" THEN LET r == OH(U[un].L, U[un].blk)!OFlush(st) IN [st |-> r.st, ret |-> r.ret]
     ELSE LET r == OS(U[un].L, U[un].blk, U[un].pf = "tienew")!OFlush(st) IN [st |-> r.st, ret |-> r.ret]
@@ -107,8 +110,10 @@ SubHash(info, ms, j) ==
           ret |-> r.ret]
 
 \* FLUSH_JOB_CIPHER / FLUSH_JOB_HASH for the suite of job j (synchronous stages have nothing to flush)
+\* (the flush goes by the cipher mode of the job: a job whose own stage ran outside the lanes - info[j].cu = "sync", e.g.
+\* SNOW3G-UEA2 with a length that is not a whole number of bytes - still flushes the lanes of its mode, info[j].cfu)
 FlCipher(info, ms, j) ==
-    LET cu == info[j].cu IN
+    LET cu == IF "cfu" \in DOMAIN info[j] THEN info[j].cfu ELSE info[j].cu IN
     IF cu = "sync" THEN [ms |-> ms, ret |-> NOJ]
     ELSE IF cu = "custom"      \* FLUSH_JOB_CUSTOM_CIPHER(job): JOB_CUSTOM_CIPHER runs the call-back only if it has not run yet
     THEN (IF j \in ms.cd THEN [ms |-> ms, ret |-> IF LegacyCustomFlush THEN j ELSE NOJ]
